@@ -1182,6 +1182,11 @@ class PageLabels(NumberTree):
             label = ""
         elif style is LIT("D"):  # Decimal arabic numerals
             label = str(value)
+        elif (style is LIT("R") or style is LIT("r")) and not 0 < value < 4000:
+            # roman numerals do not reach that far: a damaged /St, or a very long range
+            label = str(value)
+        elif (style is LIT("A") or style is LIT("a")) and value < 1:
+            label = str(value)
         elif style is LIT("R"):  # Uppercase roman numerals
             label = format_int_roman(value).upper()
         elif style is LIT("r"):  # Lowercase roman numerals
